@@ -290,7 +290,7 @@ func NewNet(seed int64, o *Opts) *Net {
 	net := &Net{Log: &spi.Log{}, byId: map[string]*RNode{}, rng: &safeRand{r: rand.New(rand.NewSource(seed))}, opts: o, stats: map[string]int{}, canon: map[uint64]*commitRec{}}
 	var ids []string
 	for i := 0; i < o.N; i++ {
-		ids = append(ids, fmt.Sprintf("n%02d", i))
+		ids = append(ids, fmt.Sprintf("nd%02d", i))
 	}
 	net.Keys = spi.NewKeys(append(append([]string{}, ids...), "x00"))
 	for i, id := range ids {
